@@ -212,8 +212,8 @@ theorem okAll3_atomsOk (c : Cmd) : ∀ (occs : List C02.Occ3) (pc : Nat), C02.ok
     simp only [C02.SOcc.toL] at hget
     exact ⟨by rw [hget]; rfl, okAll3_atomsOk c rest pc hr⟩
   | .pos v :: rest, pc, h => by
-    obtain ⟨_, _, hs, hr⟩ := h
-    exact ⟨hs, okAll3_atomsOk c rest (pc + 1) hr⟩
+    obtain ⟨_, _, ⟨a, hs, _⟩, hr⟩ := h
+    exact ⟨by rw [hs]; rfl, okAll3_atomsOk c rest (pc + 1) hr⟩
   | .cluster o :: rest, pc, h => by
     obtain ⟨⟨_, _, hflags, hopt⟩, hr⟩ := h
     rw [List.flatMap_cons]
